@@ -79,6 +79,8 @@ impl Plain {
     /// instantiations.
     pub fn clear_grids() {
         if let Some(grids) = GRIDS.get() {
+            #[cfg(feature = "verif-hooks")]
+            crate::verif::sched_point("clear_grids");
             grids.lock().unwrap().0.clear();
         }
     }
@@ -275,6 +277,8 @@ impl Context for Plain {
         // The GridCollection does all the hard work here, but accessing GRIDS,
         // which is a mutable static is (mis-)diagnosed as unsafe by the compiler,
         // even though the mutable static is behind a Mutex guard
+        #[cfg(feature = "verif-hooks")]
+        crate::verif::sched_point("get_grid");
         GRIDS
             .get_or_init(init_grids)
             .lock()
